@@ -3,7 +3,7 @@
 -/
 import GIV.Lemmas.ParWorkStep
 namespace GIV.ParWork
-open GIV.Gen.Par
+open GIV.Gen.ParWork
 
 /-- counted in `w.waiting`: incremented it and did not (yet) decrement it again -/
 def Pc.inW : Pc → Bool
